@@ -14,6 +14,18 @@ Theorem C06_sites_complete :
 Proof. split; reflexivity. Qed.
 Print Assumptions C06_sites_complete.
 
+(* "the interpreter never crashes" rests, for frames running in another thread, on the structure
+   of the frame snapshot that C07's theorems are instantiated on (each raw slot read is one
+   operation together with taking the reference and is immediately preceded by the f_lasti
+   re-check; no call between capturing the interpreter-frame pointer and the first re-check;
+   all raw reads inside the retry loop): regenerated from /repo's source on every run *)
+Theorem C06_snapshot_structure :
+  SrcFacts.snapshot_slot_check_adjacent = true /\ SrcFacts.snapshot_header_check_adjacent = true
+  /\ SrcFacts.snapshot_capture_to_check_no_call = true /\ SrcFacts.snapshot_iframe_reads_in_loop = true
+  /\ SrcFacts.snapshot_check_read_no_switch_bytecode = true.
+Proof. repeat split; reflexivity. Qed.
+Print Assumptions C06_snapshot_structure.
+
 (* repeatable: in an unchanged environment a second extraction leaves the hidden state exactly
    as the first one did (so it cannot behave differently), for all environments, options and
    prior states; the caller's options are restored *)
